@@ -135,6 +135,7 @@ class World:
         self.transitions = set()
         self.verdicts = {"D": 0, "R": 0, "k": 0}
         self.in_use_checks = 0
+        self.announces = 0      # announcements the daemon has seen, filler traffic included (its serial counter)
         # protocol of every service name as last configured with a known protocol (a retired or mis-typed entry
         # keeps answering with the protocol it had: modules/iauth_xquery.c keeps the record while it is referenced)
         self.svc_type = dict(self.services())
@@ -262,6 +263,7 @@ class World:
                 if any(old.awaiting.values()):
                     self.probe("reannounce_while_awaiting")
             self.ninst += 1
+            self.announces += 1
             i = Inst(cid, self.ninst, op["addr"], canon(addr_value(op["addr"])), op["port"], self.now,
                      self.cfg.get("timeout", 0))
             self.live[cid] = i
@@ -615,7 +617,10 @@ class World:
             if ctx is None or ctx.ended is not None or ctx.tag is not None or ctx.cid != owner.cid:
                 return
             # the tag of a departed instance was handed to its successor on the same id: already a violation
-            # (above); the query is evidently about the successor, so the other monitors go on following it
+            # (above); the query is evidently about the successor, so the other monitors go on following it.
+            # A tag that does not tell two instances of an id apart cannot keep their replies apart either (C04).
+            self.v(("C04", "C01"), "tag-reused-for-successor", "client %d's new instance %d got the routing tag %s of its departed "
+                   "instance %d: a reply still in flight for the old one now names the new one" % (ctx.cid, ctx.n, tag, owner.n))
             ctx.tag = tag
             self.tags[tag] = ctx
             owner = ctx
@@ -727,7 +732,8 @@ class World:
         out = [s for s, a in i.awaiting.items() if a]
         if out and not i.expired and not i.opaque:
             self.v("C02", "query-outstanding", "client %d accepted while %s still owe(s) an answer and no timeout expired: %r" % (cid, out, ln))
-        if self.blocked_by_bang(i) and not i.opaque:
+        if (self.blocked_by_bang(i) or ("!" in i.modes and cmd == "D" and self.has_xquery())) and not i.opaque:
+            # (+! and reported without an account: whatever a service vouched, the client holds no stamp)
             self.v("C02", "bang-no-stamp", "client %d asked for +! and holds no account stamp but was accepted: %r" % (cid, ln))
         if i.refused:
             self.v(("C02", "C01"), "accepted-after-refusal", "client %d was refused by a service and then accepted: %r" % (cid, ln))
